@@ -316,6 +316,13 @@ def run(ctx, chk):
                                     continue
                                 if fn == "cbor_load" and e.callee == "cbor_stream_decode" and k2 == 1:
                                     continue
+                                if e.ckind == "lib" and e.callee in eff.summ:
+                                    # a library callee may read through the pointer; it must neither store it anywhere
+                                    # nor hand it back (interprocedural effect summary, transitive)
+                                    S_ = eff.summ[e.callee]
+                                    kept = any(v == ("param", k2) for (_t, v) in S_["stores"]) or ("param", k2) in S_["ret"]
+                                    if not kept:
+                                        continue
                                 bad.append("passed to %s at %s" % (e.callee, e.ins.loc()))
                 if pa.ret is not None and isinstance(pa.ret, tuple) and P.derives(pa.ret, B):
                     bad.append("returned")
